@@ -8,3 +8,27 @@ Theorem C16_translate : forall (Q : Type) (E : EqDec Q) (F : fst Q) (w : list N)
   translate fuel F w = Some outs -> forall o, In o outs <-> Rel F w o.
 Proof. exact (@translate_spec). Qed.
 Print Assumptions C16_translate.
+
+(* union, concatenate, kleene_star (tagged copies of the operands, so shared state names cannot interfere) and to_fst *)
+From PFL Require Import Spec.Enfa Proofs.FstOps.
+Theorem C16_union : forall (Q1 Q2 : Type) (A : fst Q1) (B : fst Q2) (w o : list N),
+  Rel (fst_union A B) w o <-> Rel A w o \/ Rel B w o.
+Proof. exact (@fst_union_rel). Qed.
+Print Assumptions C16_union.
+
+Theorem C16_concatenate : forall (Q1 Q2 : Type) (A : fst Q1) (B : fst Q2) (w o : list N),
+  Rel (fst_concat A B) w o <-> exists w1 w2 o1 o2, w = w1 ++ w2 /\ o = o1 ++ o2 /\ Rel A w1 o1 /\ Rel B w2 o2.
+Proof. exact (@fst_concat_rel). Qed.
+Print Assumptions C16_concatenate.
+
+Theorem C16_kleene_star : forall (Q : Type) (A : fst Q) (w o : list N),
+  Rel (fst_star A) w o <->
+  exists pairs : list (list N * list N), w = concat (map (@Datatypes.fst _ _) pairs) /\ o = concat (map (@snd _ _) pairs) /\
+                                       Forall (fun p => Rel A (Datatypes.fst p) (snd p)) pairs.
+Proof. exact (@fst_star_rel). Qed.
+Print Assumptions C16_kleene_star.
+
+Theorem C16_to_fst : forall (Q : Type) (A : enfa Q) (w o : list N),
+  Rel (enfa_to_fst A) w o <-> o = w /\ Lang A w.
+Proof. exact (@to_fst_rel). Qed.
+Print Assumptions C16_to_fst.
